@@ -20,6 +20,7 @@ from .. import core
 from ..core import Budget
 from ..drivers import AsyncDriver, Harness, SyncDriver, canon_interp
 
+UNIT_TIMEOUT = 900  # backstop against a hung unit only; thread-slice subtrees can take minutes on a loaded machine
 LEVEL = "model_checking"
 RULE = (
     "LIFE machine (idle / armed[after-timer + invoked child machine + delayed send] / done[final state that itself invokes a failing service] / failing[unhandled service "
@@ -344,8 +345,13 @@ def units(tier: str) -> List[Any]:
     depth = 5 if tier == "quick" else 7
     core.install_logging()
     us: List[Any] = []
+    from . import c14_preempt as PP
+    from ..preempt import split
+
     for variant, (bq, bt) in PREEMPT.items():
-        us.append(("preempt", variant, bq if tier == "quick" else bt))
+        b = bq if tier == "quick" else bt
+        for root in split(PP, variant, b):
+            us.append(("preempt", variant, (b, root)))
     for engine in ENGINES:
         res = dict(states=0, transitions=0, executions=0, distinct=[], violations=[], samples=[], caps=[])
         seen: set = set()
@@ -370,27 +376,11 @@ def run_unit(unit):
         return unit[2]
     if unit[0] == "preempt":
         from . import c14_preempt as P
-        import re as _re
+        from ..preempt import unit_result
 
-        _, variant, bound = unit
-        res = dict(states=0, transitions=0, executions=0, distinct=[], violations=[], samples=[], caps=[])
-        results, n, capped = P.explore(variant, bound)
-        res["executions"] += n
-        if capped:
-            res["caps"].append("max_execs per preemptive variant")
-        outcomes = set()
-        for taken, out in results:
-            outcomes.add(out["key"])
-            res["distinct"].append(hash(("preempt", variant, tuple(out["schedule"]))))
-            for clause, detail in out["bad"]:
-                res["violations"].append(dict(
-                    signature=f"C14|{clause}|sync-threads", clause=clause,
-                    what=f"sync engine, threads {sorted(P.VARIANTS[variant]['producers'])}{' + after-timer' if P.VARIANTS[variant]['timer'] else ''}: {clause}: {detail}; "
-                         f"{out['preemptions']} preemption(s), schedule {[_re.sub(r'::[0-9a-f-]+', '', x) for x in out['schedule']]}",
-                    size=out["preemptions"] * 1000 + len(taken),
-                    replay=dict(engine="preempt", variant=variant, bound=bound, schedule=taken)))
-        res["samples"].append(dict(engine="sync-threads", variant=variant, preemption_bound=bound, schedules=n, distinct_outcomes=len(outcomes)))
-        return res
+        bound, root = unit[2]
+        return unit_result("C14", P, unit[1], bound,
+                           lambda v: f"threads {sorted(P.VARIANTS[v]['producers'])}{' + after-timer' if P.VARIANTS[v]['timer'] else ''}", root=root)
     _, engine, root, depth = unit
     res = dict(states=0, transitions=0, executions=0, distinct=[], violations=[], samples=[], caps=[])
     seen: set = set()
